@@ -11,6 +11,9 @@
     satisfying the recurrences the code implements (extrapolation formula, `t ≥ 1`,
     `t₊² − t₊ ≤ t²`, `γ` non-increasing): `E_{k+1} ≤ E_k + margin`, hence
     `F(x̂ₖ) − F⋆ ≤ 2(‖x₀−x⋆‖² + Mₖ)/(γₖ (k+2)²) ≤` the property's bound.
+  * fuel: the model theorems below carry no `fuelOut` hypothesis — `FistaFuelOK pr nL` (`Proofs/FistaFuel`:
+    `0 < L_min ≤ L_max ≤ L_min·2^nL`, `L_max ≤ L_0·2^nL` for a user-supplied `L_0 > 0`, `nL + 1 ≤ qubFuel`)
+    makes the model's backtracking fuel provably sufficient (`Fista.run_fuelOut_false`).
   * `fista_rate_model` — the same bound for **every callback of the loop model**
     `Fista.run` (`Alpaqa/Model/Fista.lean`, tied to fista.tpp by bit-exact trace replay): all three
     Lipschitz modes, all stop schedules / budgets (the final callback of a solve whose last
@@ -35,6 +38,7 @@
 -/
 import Mathlib.Analysis.Real.Sqrt
 import Alpaqa.Proofs.C08Model
+import Alpaqa.Proofs.FistaFuel
 
 namespace Alpaqa.Props.C08
 open Alpaqa Alpaqa.Gen Alpaqa.Fista Alpaqa.C08
@@ -282,13 +286,13 @@ variable {α : Type} [Field α] [LinearOrder α] [IsStrictOrderedRing α] [RealL
 theorem fista_rate_model (S : Spec n P ψ grad h dom) (hp : ParamOK pr) (hQ : QubMax n ψ grad pr.Lmax)
     (T : Target n ψ h dom xs Fs) (hsq : LawfulSqrt α) (hacc : pr.disableAcceleration = false)
     (stop : ℕ → Bool) (hm : StopMono stop) (oot : Bool) (x0 y Sig errz0 gV : List α) (nan inf : α)
-    (hx0 : x0.length = n)
-    (hfuel : (run P pr stop oot x0 y Sig errz0 gV nan inf).fuelOut = false) :
+    (hx0 : x0.length = n) (nL : ℕ) (hF : FistaFuelOK pr nL) :
     AllOK pr ψ h Fs (ipN n (toFn x0 - toFn xs) (toFn x0 - toFn xs))
       (run P pr stop oot x0 y Sig errz0 gV nan inf).callbacks.reverse.tail ∧
     (stop (finalPoll pr (run P pr stop oot x0 y Sig errz0 gV nan inf)) = false →
       AllOK pr ψ h Fs (ipN n (toFn x0 - toFn xs) (toFn x0 - toFn xs))
         (run P pr stop oot x0 y Sig errz0 gV nan inf).callbacks.reverse) := by
+  have hfuel := run_fuelOut_false P pr stop oot x0 y Sig errz0 gV nan inf nL hF
   unfold run at hfuel ⊢
   cases hi : initState P pr x0 gV nan with
   | inl tk => simp [AllOK]
@@ -307,8 +311,7 @@ theorem fista_rate_model_exact (S : Spec n P ψ grad h dom) (hp : ParamOK pr)
     (hQ : QubMax n ψ grad pr.Lmax) (T : Target n ψ h dom xs Fs) (hsq : LawfulSqrt α)
     (hacc : pr.disableAcceleration = false) (hzero : fixedLip pr = true ∨ pr.qubTol = 0)
     (stop : ℕ → Bool) (hm : StopMono stop) (oot : Bool) (x0 y Sig errz0 gV : List α) (nan inf : α)
-    (hx0 : x0.length = n)
-    (hfuel : (run P pr stop oot x0 y Sig errz0 gV nan inf).fuelOut = false) :
+    (hx0 : x0.length = n) (nL : ℕ) (hF : FistaFuelOK pr nL) :
     (∀ cb ∈ (run P pr stop oot x0 y Sig errz0 gV nan inf).callbacks.reverse.tail,
       ψ cb.it.xhat + h cb.it.xhat - Fs
         ≤ 2 * ipN n (toFn x0 - toFn xs) (toFn x0 - toFn xs) / (cb.it.gamma * ((cb.k : α) + 2) ^ 2)) ∧
@@ -316,7 +319,7 @@ theorem fista_rate_model_exact (S : Spec n P ψ grad h dom) (hp : ParamOK pr)
       ∀ cb ∈ (run P pr stop oot x0 y Sig errz0 gV nan inf).callbacks,
         ψ cb.it.xhat + h cb.it.xhat - Fs
           ≤ 2 * ipN n (toFn x0 - toFn xs) (toFn x0 - toFn xs) / (cb.it.gamma * ((cb.k : α) + 2) ^ 2)) := by
-  have hall := fista_rate_model S hp hQ T hsq hacc stop hm oot x0 y Sig errz0 gV nan inf hx0 hfuel
+  have hall := fista_rate_model S hp hQ T hsq hacc stop hm oot x0 y Sig errz0 gV nan inf hx0 nL hF
   have hm0 : ∀ l : List (Callback α), marginSum pr l = 0 := by
     intro l
     induction l with
@@ -354,13 +357,13 @@ theorem fista_rate_model_exact (S : Spec n P ψ grad h dom) (hp : ParamOK pr)
 theorem pg_rate_model (S : Spec n P ψ grad h dom) (hp : ParamOK pr) (hQ : QubMax n ψ grad pr.Lmax)
     (T : Target n ψ h dom xs Fs) (hacc : pr.disableAcceleration = true)
     (stop : ℕ → Bool) (hm : StopMono stop) (oot : Bool) (x0 y Sig errz0 gV : List α) (nan inf : α)
-    (hx0 : x0.length = n)
-    (hfuel : (run P pr stop oot x0 y Sig errz0 gV nan inf).fuelOut = false) :
+    (hx0 : x0.length = n) (nL : ℕ) (hF : FistaFuelOK pr nL) :
     AllOKPg pr ψ h Fs (ipN n (toFn x0 - toFn xs) (toFn x0 - toFn xs))
       (run P pr stop oot x0 y Sig errz0 gV nan inf).callbacks.reverse.tail ∧
     (stop (finalPoll pr (run P pr stop oot x0 y Sig errz0 gV nan inf)) = false →
       AllOKPg pr ψ h Fs (ipN n (toFn x0 - toFn xs) (toFn x0 - toFn xs))
         (run P pr stop oot x0 y Sig errz0 gV nan inf).callbacks.reverse) := by
+  have hfuel := run_fuelOut_false P pr stop oot x0 y Sig errz0 gV nan inf nL hF
   unfold run at hfuel ⊢
   cases hi : initState P pr x0 gV nan with
   | inl tk => simp [AllOKPg]
@@ -380,8 +383,7 @@ theorem pg_model_exact (S : Spec n P ψ grad h dom) (hp : ParamOK pr)
     (hQ : QubMax n ψ grad pr.Lmax) (T : Target n ψ h dom xs Fs)
     (hacc : pr.disableAcceleration = true) (hzero : fixedLip pr = true ∨ pr.qubTol = 0)
     (stop : ℕ → Bool) (hm : StopMono stop) (oot : Bool) (x0 y Sig errz0 gV : List α) (nan inf : α)
-    (hx0 : x0.length = n)
-    (hfuel : (run P pr stop oot x0 y Sig errz0 gV nan inf).fuelOut = false) :
+    (hx0 : x0.length = n) (nL : ℕ) (hF : FistaFuelOK pr nL) :
     ((∀ cb ∈ (run P pr stop oot x0 y Sig errz0 gV nan inf).callbacks.reverse.tail,
       ψ cb.it.xhat + h cb.it.xhat - Fs
         ≤ ipN n (toFn x0 - toFn xs) (toFn x0 - toFn xs) / (2 * cb.it.gamma * ((cb.k : α) + 1))) ∧
@@ -393,7 +395,7 @@ theorem pg_model_exact (S : Spec n P ψ grad h dom) (hp : ParamOK pr)
           ≤ ipN n (toFn x0 - toFn xs) (toFn x0 - toFn xs) / (2 * cb.it.gamma * ((cb.k : α) + 1))) ∧
       List.IsChain (fun a b : Callback α => ψ b.it.xhat + h b.it.xhat ≤ ψ a.it.xhat + h a.it.xhat)
         (run P pr stop oot x0 y Sig errz0 gV nan inf).callbacks) := by
-  have hall := pg_rate_model S hp hQ T hacc stop hm oot x0 y Sig errz0 gV nan inf hx0 hfuel
+  have hall := pg_rate_model S hp hQ T hacc stop hm oot x0 y Sig errz0 gV nan inf hx0 nL hF
   have hcb0 : ∀ c : Callback α, cbM pr c = 0 := by
     intro c; unfold cbM; rcases hzero with hz | hz <;> simp [hz]
   have hm0 : ∀ l : List (Callback α), marginSumPg pr l = 0 := by
@@ -586,22 +588,31 @@ theorem exTarget (n : ℕ) : Target n (fun x : List ℝ => ipN n (toFn x) (toFn 
     have := (isIP_ipN (α := ℝ) n).nonneg (toFn z)
     linarith
 
+/-- the fuel condition for the fixed step size `L_min = L_max = 1`: the backtracking loop is never entered
+    (`nL = 0`), the default `qubFuel = 4096 ≥ 1` suffices -/
+theorem exFuelOK : FistaFuelOK exPr 0 where
+  lmin_pos := by norm_num [exPr]
+  lmin_le := by norm_num [exPr]
+  lmax_lmin := by norm_num [exPr]
+  lmax_l0 := fun h => by
+    have : fixedLip exPr = true := by simp [fixedLip, fista_fixedLipschitz, exPr]
+    rw [this] at h; exact absurd h (by decide)
+  fuel := by norm_num [exPr]
+
 /-- All hypotheses of `fista_rate_model_exact` hold for this instance: FISTA with `L = 1` on
     `½‖x‖²` satisfies `F(x̂ₖ) ≤ 2‖x₀‖²/(γₖ(k+2)²)` at every reported iterate (for a stop flag that is
     never requested: `StopMono` holds trivially and no request is visible at the final check). -/
-example (n : ℕ) (x0 : List ℝ) (hx0 : x0.length = n) (oot : Bool)
-    (hfuel : (run (exP n) exPr (fun _ => false) oot x0 [] [] [] [] 0 0).fuelOut = false) :
+example (n : ℕ) (x0 : List ℝ) (hx0 : x0.length = n) (oot : Bool) :
     ∀ cb ∈ (run (exP n) exPr (fun _ => false) oot x0 [] [] [] [] 0 0).callbacks,
       ipN n (toFn cb.it.xhat) (toFn cb.it.xhat) / 2 + 0 - 0
         ≤ 2 * ipN n (toFn x0 - toFn (List.replicate n (0:ℝ))) (toFn x0 - toFn (List.replicate n (0:ℝ)))
             / (cb.it.gamma * ((cb.k : ℝ) + 2) ^ 2) :=
   (fista_rate_model_exact (exSpec n) exParamOK (exQub n) (exTarget n) lawfulSqrt_real rfl
-    (Or.inr rfl) (fun _ => false) (fun _ _ _ h => h) oot x0 [] [] [] [] 0 0 hx0 hfuel).2 rfl
+    (Or.inr rfl) (fun _ => false) (fun _ _ _ h => h) oot x0 [] [] [] [] 0 0 hx0 0 exFuelOK).2 rfl
 
 /-- … and for any stop schedule that never lowers the flag (here: visible from tick `k` on) every
     reported iterate but possibly the final one satisfies the bound. -/
-example (n : ℕ) (x0 : List ℝ) (hx0 : x0.length = n) (k : ℕ) (oot : Bool)
-    (hfuel : (run (exP n) exPr (fun t => decide (k ≤ t)) oot x0 [] [] [] [] 0 0).fuelOut = false) :
+example (n : ℕ) (x0 : List ℝ) (hx0 : x0.length = n) (k : ℕ) (oot : Bool) :
     ∀ cb ∈ (run (exP n) exPr (fun t => decide (k ≤ t)) oot x0 [] [] [] [] 0 0).callbacks.reverse.tail,
       ipN n (toFn cb.it.xhat) (toFn cb.it.xhat) / 2 + 0 - 0
         ≤ 2 * ipN n (toFn x0 - toFn (List.replicate n (0:ℝ))) (toFn x0 - toFn (List.replicate n (0:ℝ)))
@@ -609,7 +620,7 @@ example (n : ℕ) (x0 : List ℝ) (hx0 : x0.length = n) (k : ℕ) (oot : Bool)
   (fista_rate_model_exact (exSpec n) exParamOK (exQub n) (exTarget n) lawfulSqrt_real rfl
     (Or.inr rfl) (fun t => decide (k ≤ t))
     (fun a b hab h => by simp only [decide_eq_true_eq] at h ⊢; omega)
-    oot x0 [] [] [] [] 0 0 hx0 hfuel).1
+    oot x0 [] [] [] [] 0 0 hx0 0 exFuelOK).1
 
 end example_real
 
